@@ -245,10 +245,18 @@ def _is_reversed_containment(marker: BaseMarker) -> bool:
     ``"lit" in name`` / ``"lit" not in name`` test a substring of the environment
     value, and in ``"lit" < name`` / ``"lit" > name`` the literal is the candidate
     version, so PEP 440 excludes it when it is a pre/post-release of the version
-    it is compared with -- which the mirrored atom ``name > "lit"`` does not."""
+    it is compared with -- which the mirrored atom ``name > "lit"`` does not.
+    ``"lit" ~= name`` and wildcard literals are not mirror images either."""
     if not (isinstance(marker, MarkerExpression) and marker.reversed):
         return False
     if marker.op in ("in", "not in"):
+        return True
+    if marker.name in _VERSION_VALUED_MARKER_NAMES and (
+        marker.op == "~=" or marker.value.endswith(".*")
+    ):
+        # ``"lit" ~= name`` builds the compatible-release range from the
+        # environment value, and a wildcard literal is no candidate version
+        # at all: neither is the mirrored atom
         return True
     if marker.op in ("<", ">") and marker.name in _VERSION_VALUED_MARKER_NAMES:
         try:
